@@ -81,7 +81,7 @@ ASSUMPTIONS = [
     'meta[fileTimeSecs]); reading ns back from fileTimeSecs relies on round(fl(fl(k/fs)*fs)) = k (C11)',
     'x.meta exists and is never touched; one chunk size per recording (compress_file is always called with the same chunk_duration)',
     'faults are exceptions: (a) raised inside mtscomp while chunk k is produced, (b) raised by the rename (compress_file) / shutil.move '
-    '(decompress_to_scratch) that publishes the finished temporary file - injected by patching pathlib.Path.rename / shutil.move for that destination, '
+    '(decompress_to_scratch) that publishes the finished temporary file - injected by refusing every publishing primitive (Path.rename / Path.replace / os.rename / os.replace / shutil.move) for that destination, '
     'or for real by a directory sitting at x.cbin; not process crashes between two system calls, not failures of unlink; '
     'with n_threads = T the chunks of one batch are produced before any is written, so (k // T) * T chunks have reached the file',
     'the atomicity trace theorems exclude a fault inside the PLAIN decompress_file (mtscomp writes straight to x.bin; the property claims atomic '
@@ -483,30 +483,34 @@ def _publish_fault(how, rec, kind):
             if rec.path('cbin').is_dir():
                 _sh.rmtree(rec.path('cbin'))
         return
-    if kind == 'compress':
-        orig = pathlib.Path.rename
+    # Whatever primitive the code uses to publish (Path.rename, Path.replace, os.rename, os.replace, shutil.move) is refused
+    # for the final destination only: the fault point is "the publishing step", not one particular library call, so that a
+    # rewrite from shutil.move to Path.replace (same directory) keeps meeting the same fault.
+    import os as _os
+    suffix = '.cbin' if kind == 'compress' else '.bin'
 
-        def rename(self, target):
-            if Path(target).suffix == '.cbin':
-                raise PermissionError(13, 'injected: rename to the final name refused', str(target))
-            return orig(self, target)
-        pathlib.Path.rename = rename
+    def refuse(dst):
         try:
-            yield
-        finally:
-            pathlib.Path.rename = orig
-    else:
-        orig = _sh.move
+            return Path(_os.fspath(dst)).suffix == suffix
+        except TypeError:
+            return False
 
-        def move(src, dst, *a, **kw):
-            if Path(dst).suffix == '.bin':
-                raise PermissionError(13, 'injected: move to the final name refused', str(dst))
-            return orig(src, dst, *a, **kw)
-        _sh.move = move
-        try:
-            yield
-        finally:
-            _sh.move = orig
+    def guard(orig, dst_index):
+        def wrapped(*a, **kw):
+            dst = a[dst_index] if len(a) > dst_index else kw.get('target', kw.get('dst'))
+            if dst is not None and refuse(dst):
+                raise PermissionError(13, 'injected: publishing the finished file under its final name refused', str(dst))
+            return orig(*a, **kw)
+        return wrapped
+    saved = [(pathlib.Path, 'rename', pathlib.Path.rename, 1), (pathlib.Path, 'replace', pathlib.Path.replace, 1),
+             (_os, 'rename', _os.rename, 1), (_os, 'replace', _os.replace, 1), (_sh, 'move', _sh.move, 1)]
+    for obj, name, orig, di in saved:
+        setattr(obj, name, guard(orig, di))
+    try:
+        yield
+    finally:
+        for obj, name, orig, di in saved:
+            setattr(obj, name, orig)
 
 
 def _stale_cbin(rec):
